@@ -25,8 +25,14 @@ _MISSING = object()
 BIG = 64          # containers larger than this are recorded by (id, len) only
 
 
+_PREFIX: str | None = None
+
+
 def _prefix() -> str:
-    return os.path.join(repo_path(), "markdown_it") + os.sep
+    global _PREFIX
+    if _PREFIX is None:
+        _PREFIX = os.path.join(repo_path(), "markdown_it") + os.sep
+    return _PREFIX
 
 
 def _is_lib_module(m) -> bool:
